@@ -3,6 +3,7 @@ import AasVerif.Lemmas.SdkRound
 import AasVerif.Lemmas.SdkTotal
 import AasVerif.Lemmas.SdkTyped
 import AasVerif.Lemmas.XmlText
+import AasVerif.Lemmas.SdkXmlRound
 /-!
 # C10 — Python SDK serialization round-trips and rejects bad documents
 
@@ -134,6 +135,19 @@ theorem xml_text_without_cr_step_loses_cr :
 
 example : (∀ c ∈ ([97, 13, 10, 38, 60, 62, 0x1F600] : Text), XmlText.isChar c = true) := by decide
 
+/-! ## XML element trees (`Model/SdkXml.lean`; documents read by `iterparse` in one chunk) -/
+
+/-- `<c>_from_str(to_str(i)) == i` on element trees, FULL strength (XML dispatches on the element
+tag, so finding C10-F1 does not exist here): for every meta-model with `wfXml` (= `wf` +
+`xml_class_name` injective on class names), every class `c` the instance conforms to (own class or
+ancestor), every oracle that agrees with CPython on `int(str(i)) == i` and on `float(repr(x))`
+for the floats of the instance. -/
+theorem xml_roundtrip (mm : MM) (hwf : mm.wfXml = true) (ns : Text) (py : PyOracle)
+    (hint : py.intOk) (c : Name) (i : Val) (hi : conformsNN mm (.cls c) i = true)
+    (hf : floatsOk py i = true) :
+    fromXml mm ns py c (toXml mm ns i) = .ok i :=
+  rtx_top mm hwf ns py hint c i hi hf
+
 /-! Non-vacuity: a well-formed meta-model with a hierarchy, and an instance of a descendant that
 meets the hypotheses of `json_roundtrip`, `json_roundtrip_via_parent`. -/
 
@@ -165,6 +179,9 @@ example : Conforms mmEx circleEx :=
 example : conformsNN mmEx (.cls (Text.ofString "Drawing"))
     (.inst (Text.ofString "Drawing") (.cons circleEx .nil)) = true := by
   simp [conformsNN, conformsFields, conforms, conformsAll, MM.findClass, MM.findEnum, mmEx, circleEx, Text.ofString, bytesOk]
+example : mmEx.wfXml = true := by decide
+example (py : PyOracle) : floatsOk py circleEx = true := by
+  simp [floatsOk, floatsOkL, circleEx]
 example : mmF1.wf = true := by decide
 example : mmF1.dispatchOkFor (Text.ofString "Parent_thing") = false := by decide
 
